@@ -6,7 +6,7 @@ from pyvc import smt
 from pyvc.smt import V
 
 
-def counting(ctx, name, keyterm):
+def counting(ctx, name, keyterm, witness=False):
     """declare C_name with its axioms for the key sequence keyterm(i); returns the z3 function"""
     C = z3.Function(name, V, z3.IntSort(), z3.IntSort())
     kap, m, i, j = z3.Const('kap!' + name, V), smt.fresh_int('m'), smt.fresh_int('i'), smt.fresh_int('j')
@@ -14,4 +14,10 @@ def counting(ctx, name, keyterm):
     ctx.facts.append(z3.ForAll([kap, m], z3.Implies(m >= 1, C(kap, m + 1) == C(kap, m) + z3.If(keyterm(m) == kap, 1, 0))))
     ctx.facts.append(z3.ForAll([kap, m], z3.Implies(m >= 1, z3.And(C(kap, m) >= 0, C(kap, m) <= m - 1))))
     ctx.facts.append(z3.ForAll([kap, i, j], z3.Implies(z3.And(1 <= i, i <= j), C(kap, i) <= C(kap, j))))
+    if witness:
+        # C(k, m) > 0  <=>  some row in [1, m) has key k   (both directions proved by induction in C07.cnt.lemmas)
+        wit = z3.Function('wit!' + name, V, z3.IntSort(), z3.IntSort())
+        ctx.facts.append(z3.ForAll([kap, m, j], z3.Implies(z3.And(1 <= j, j < m, keyterm(j) == kap), C(kap, m) > 0)))
+        ctx.facts.append(z3.ForAll([kap, m], z3.Implies(z3.And(m >= 1, C(kap, m) > 0),
+                                                        z3.And(1 <= wit(kap, m), wit(kap, m) < m, keyterm(wit(kap, m)) == kap))))
     return C
